@@ -187,9 +187,11 @@ impl Node {
     pub fn start_with_ancient(dir: &Path, consensus: Consensus, cfg: &NodeCfg, ancient: Option<PathBuf>) -> Node {
         std::fs::create_dir_all(dir.join("header_map")).unwrap();
         let db_config = ckb_app_config::DBConfig { path: dir.join("db"), ..Default::default() };
+        let freezer_enable = ancient.is_some();
         let mut builder = SharedBuilder::new("verif", dir, &db_config, ancient, runtime_handle(), consensus.clone())
             .unwrap_or_else(|e| panic!("SharedBuilder::new failed: {e:?}"))
-            .header_map_tmp_dir(Some(dir.join("header_map")));
+            .header_map_tmp_dir(Some(dir.join("header_map")))
+            .store_config(ckb_app_config::StoreConfig { freezer_enable, ..Default::default() });
         if let Some(tp) = &cfg.tx_pool {
             builder = builder.tx_pool_config(tp.clone());
         }
